@@ -3664,13 +3664,25 @@ func (b *SystemBackend) handleWrappingRewrap(ctx context.Context, req *logical.R
 		return nil, errors.New("token is not a valid unwrap token")
 	}
 
+	// The wrapping token, its lease and its cubbyhole live in the token's
+	// namespace, which need not be the namespace of the request.
+	rewrapNS, err := b.Core.NamespaceByID(ctx, te.NamespaceID)
+	if err != nil {
+		return nil, err
+	}
+	if rewrapNS == nil {
+		return nil, errors.New("token is not from a valid namespace")
+	}
+
+	rewrapCtx := namespace.ContextWithNamespace(ctx, rewrapNS)
+
 	if thirdParty {
 		// Use the token to decrement the use count to avoid a second operation on the token.
-		_, err := b.Core.tokenStore.UseTokenByID(ctx, token)
+		_, err := b.Core.tokenStore.UseTokenByID(rewrapCtx, token)
 		if err != nil {
 			return nil, fmt.Errorf("error decrementing wrapping token's use-count: %w", err)
 		}
-		defer b.Core.tokenStore.revokeOrphan(ctx, te.ID)
+		defer b.Core.tokenStore.revokeOrphan(rewrapCtx, te.ID)
 	}
 
 	// Fetch the original TTL
@@ -3680,7 +3692,7 @@ func (b *SystemBackend) handleWrappingRewrap(ctx context.Context, req *logical.R
 		ClientToken: token,
 	}
 	cubbyReq.SetTokenEntry(te)
-	cubbyResp, err := b.Core.router.Route(ctx, cubbyReq)
+	cubbyResp, err := b.Core.router.Route(rewrapCtx, cubbyReq)
 	if err != nil {
 		return nil, fmt.Errorf("error looking up wrapping information: %w", err)
 	}
@@ -3718,7 +3730,7 @@ func (b *SystemBackend) handleWrappingRewrap(ctx context.Context, req *logical.R
 		ClientToken: token,
 	}
 	cubbyReq.SetTokenEntry(te)
-	cubbyResp, err = b.Core.router.Route(ctx, cubbyReq)
+	cubbyResp, err = b.Core.router.Route(rewrapCtx, cubbyReq)
 	if err != nil {
 		return nil, fmt.Errorf("error looking up response: %w", err)
 	}
